@@ -74,6 +74,76 @@ def truncation_cases(ctx, cases):
     ctx.extra['truncation_points'] = n_pts
 
 
+def frame_truncation_cases(ctx):
+    """Message-level truncation against the framing model (theorems C12_message_cut,
+    C12_encoded_prefix_fails, C12_encoded_info_prefix): messages of N x 031031 in
+    editions 2-4, section 2 present or not, optionally embedded in leading noise and
+    trailing bytes; EVERY cut k of the input, full and metadata-only decoding.
+    The implementation is compared with the extracted Frame.v model (same stub
+    template decoder as C04) and, independently, with the theorem's prediction:
+    the cut decodes to the SAME message iff it keeps the signature and every
+    consumed bit (all of the message; all but section 5 for metadata-only),
+    and raises a PyBufrKitError otherwise."""
+    import random
+    from props import frame_common as fc
+    rng = ctx.rng
+    thorough = not ctx.quick
+    inputs = []
+    sec2s = [None, '', '10110', '1011000111110000'] if thorough else [None, '10110']
+    for ed in (2, 3, 4):
+        for sec2 in sec2s:
+            for n in ([0, 1, 7, 8, 9, 16, 23, 40] if thorough else [rng.randrange(0, 9), rng.randrange(9, 48)]):
+                bits = ''.join(rng.choice('01') for _ in range(n))
+                msg = fc.build_json(ed, bits, sec2, {}, rng=random.Random(rng.randrange(1 << 30)))
+                io, obj = fc.impl_encode(msg, True)
+                if obj is None:
+                    continue
+                b = obj.serialized_bytes
+                lead = rng.choice([b'', b'', b'\r\r\n', b'BUF'])
+                trail = rng.choice([b'', b'', b'7777', b'BUFR\x00', bytes(rng.randrange(256) for _ in range(rng.randrange(1, 6)))])
+                inputs.append((ed, sec2, n, lead, b, trail))
+    lines, meta = [], []
+    for (ed, sec2, n, lead, b, trail) in inputs:
+        s = lead + b + trail
+        modes = [(False, False), (True, False)] + ([(False, True), (True, True)] if thorough else [])
+        for info, ignexp in modes:
+            for k in range(len(s) + 1):
+                lines.append(fc.dec_line(s[:k], True, info, ignexp))
+                meta.append((ed, sec2, n, lead, b, trail, info, ignexp, k))
+    mouts = lib.run_model_sharded(lines)
+    whole = {}
+    n_pts = 0
+    for (ed, sec2, n, lead, b, trail, info, ignexp, k), line, mo in zip(reversed(meta), reversed(lines), reversed(mouts)):
+        s = lead + b + trail
+        io, obj = fc.impl_decode(s[:k], True, info, ignexp)
+        key = (s, info, ignexp)
+        if k == len(s):
+            whole[key] = io
+        need = len(lead) + len(b) - (4 if info else 0)
+        if k >= need:
+            holds = io.startswith('ok') and io == whole.get(key)
+            why = 'a cut that keeps every consumed bit must decode to the same message'
+        else:
+            holds = io.startswith('err ') and 1 <= int(io.split()[1]) <= 6
+            why = 'a cut into the consumed span must raise a PyBufrKitError'
+        n_pts += 1
+        ctx.count(('frame-cut', line), True)
+        ctx.dist['frame-cut-edition-%d' % ed] += 1
+        ctx.dist['frame-cut-' + ('info' if info else 'full') + ('-ignexp' if ignexp else '')] += 1
+        ctx.dist['frame-cut-result-' + (io.split(' ')[0] + (io[3:] if io.startswith('err') else ''))] += 1
+        ctx.dist['frame-cut-sec2-' + ('absent' if sec2 is None else 'present')] += 1
+        rec = {'op': 'frame-cut', 'hex': s.hex(), 'cut': k, 'edition': ed, 'sec2': sec2, 'data_bits': n,
+               'lead': len(lead), 'msg_len': len(b), 'trail': len(trail), 'info': info, 'ignexp': ignexp}
+        h = holds
+        ctx.compare(rec, io, mo, kind='C12-frame-truncation', holds=lambda: h, extra={'why': why})
+        if io == mo and not holds:
+            ctx.violation({'kind': 'C12-frame-truncation-predicate', 'case': rec, 'impl': io[:200], 'why': why},
+                          'cut %d of %d (message at %d..%d, %s): %s; got %s'
+                          % (k, len(s), len(lead), len(lead) + len(b), 'info' if info else 'full', why, io[:60]))
+    ctx.extra['frame_truncation_points'] = n_pts
+
+
+
 def cli_sample(ctx, pool):
     """The command line reports a damaged message without a traceback."""
     d = [x for x in pool if len(x['bytes']) < 2000][:1]
@@ -182,7 +252,12 @@ def run(ctx):
     ctx.rule = ('fault enumeration: (1) every truncation point (every byte; sampled above 400 bytes) of generated messages '
                 '(templates of C01, compressed or not): the implementation must raise a PyBufrKitError, never succeed and never '
                 'another exception; cuts inside the data section are also given to the extracted model (EBitRead); trailing bytes '
-                'must not change the result; (2) streams of 2..5 real messages with every kind of damage {stop signature '
+                'must not change the result; (1b) message-level cuts against the framing model Frame.v (theorems C12_message_cut / '
+                'C12_encoded_prefix_fails / C12_encoded_info_prefix): messages of N x 031031, editions 2-4, section 2 present or not, '
+                'with leading noise and trailing bytes, EVERY cut of the input, full and metadata-only (thorough: also '
+                'ignore_value_expectation): implementation = extracted model, and = the theorem\'s prediction (same message iff the cut '
+                'keeps the signature and every consumed bit — everything but section 5 for metadata-only — else PyBufrKitError); '
+                '(2) streams of 2..5 real messages with every kind of damage {stop signature '
                 'overwritten, undefined element / sequence descriptor, section length -k / +k} (total length intact) scanned '
                 'with and without continue-on-error, full and metadata-only: compared with the extracted Stream.v model fed '
                 'with the per-offset observations, and with the expectation of the property (others delivered unchanged and '
@@ -195,13 +270,14 @@ def run(ctx):
     P.run_encode(cases)
     P.run_decode(cases)
     truncation_cases(ctx, cases)
+    frame_truncation_cases(ctx)
     with S.quiet():
         pool, _files = S.build_pool(ctx)
         dmg = S.make_damaged_cases(ctx, pool, ctx.n(40, 900))
         dmg += dnp_span_cases(pool)
         S.run_stream_cases(ctx, dmg, kind='C12-stream', enforce_expect=True, classify=classify_completed_stop)
     cli_sample(ctx, pool)
-    ctx.partial = ['truncation inside sections 0-3/5 is checked on the implementation (framing model: C04)']
+    ctx.partial = []
     ctx.assumptions = ['Stream.v is instantiated with per-offset observations of the real decoder (C11)',
                        'the model describes /repo after "fix: an unexpected signature value is reported as PyBufrKitError"']
 
